@@ -72,7 +72,7 @@ class Engine:
         for a in range(n_act):
             calls = []
             for _ in range(rng.choice([1, 1, 2]) if config != "crowd" else 1):
-                t = 0 if same_text else rng.choice([0, 0, 1, 1, 2])
+                t = 0 if same_text else rng.choice([0, 0, 1, 1, 2, 3, 3])
                 calls.append({"text": t, "exp_days": rng.choice([30, 30, 1, 0]),
                               "always_update": rng.random() < 0.3})
             actors.append({"proc": proc_of[a], "calls": calls})
@@ -245,7 +245,8 @@ class Engine:
         log = core.EventLog(keep=True)
         prng = random.Random(plan["pool_seed"])
         v0, v1 = texts.make_valid(prng, prng.randrange(5)), texts.make_valid(prng, prng.randrange(5))
-        pool = [v0, v1, texts.make_broken(v0, prng.choice(texts.BREAKERS))]
+        # text 3: the first text with other line endings (another text, another tree where a string spans a line break)
+        pool = [v0, v1, texts.make_broken(v0, prng.choice(texts.BREAKERS)), texts.text_variant(v0, prng, "crlf")]
         refs = [self.reference(t) for t in pool]
         counts = {}
 
